@@ -9,7 +9,7 @@ from ..rules_codec import codec_peewee, codec_sqlite
 from ..rules_commit import check_no_rollback
 from ..rules_own import copy_protocol, own_rules
 from ..rules_read import pred_memory, pred_peewee, pred_sqlite
-from ..rules_store import instance_state, ddl_facts, idalloc_memory, is_param_ref
+from ..rules_store import instance_state, ddl_facts, idalloc_memory, idalloc_sql, is_param_ref
 
 
 def bucket_insert(prog, rep):
@@ -68,6 +68,7 @@ def check(prog, rep):
     codec_peewee(prog, rep)
     ddl_facts(prog, rep)
     idalloc_memory(prog, rep)
+    idalloc_sql(prog, rep)
     wrapper_rules(prog, rep)
     bucket_insert(prog, rep)
     # an acknowledged insert stays: nothing rolls the shared open transaction back
@@ -109,6 +110,8 @@ VARIANTS = [
     ("B peewee bulk insert stores duration as timedelta", PW, '                "duration": event.duration.total_seconds(),\n                "datastr": json.dumps(event.data),\n            }', '                "duration": event.duration,\n                "datastr": json.dumps(event.data),\n            }', "CODEC"),
     ("B peewee replace forgets the data", PW, "        e = self._get_event(bucket_id, event_id)\n        e.timestamp = event.timestamp\n        e.duration = event.duration.total_seconds()\n        e.datastr = json.dumps(event.data)\n", "        e = self._get_event(bucket_id, event_id)\n        e.timestamp = event.timestamp\n        e.duration = event.duration.total_seconds()\n", "CODEC"),
     ("B peewee json emits duration as Decimal", PW, '            "duration": float(self.duration),', '            "duration": self.duration,', "CODEC"),
+    ("B sqlite id read back as the newest row", SQ, "        event.id = c.lastrowid\n", "        event.id = self.conn.execute(\"SELECT id FROM events WHERE bucketrow = (SELECT rowid FROM buckets WHERE id = ?) ORDER BY starttime DESC, id DESC LIMIT 1\", [bucket_id]).fetchone()[0]\n", "IDALLOC"),
+    ("B peewee id read back as the largest id", PW, "        event.id = e.id\n        return event", "        event.id = EventModel.select(peewee.fn.MAX(EventModel.id)).scalar()\n        return event", "IDALLOC"),
     ("B memory id from the event count", ME, "                event.id = max(int(e.id or 0) for e in self.db[bucket]) + 1", "                event.id = len(self.db[bucket])", "IDALLOC"),
     ("B Bucket.insert returns the caller's event", DS, "            inserted = self.ds.storage_strategy.insert_one(self.bucket_id, events)", "            self.ds.storage_strategy.insert_one(self.bucket_id, events)\n            inserted = events", "INSERT-PATHS"),
     ("B upper sentinel is the 32-bit unix maximum (events after 2038 vanish from unbounded listings)", SQ, "MAX_TIMESTAMP = 2**63 - 1", "MAX_TIMESTAMP = (2**31 - 1) * 1000000", "PRED"),
